@@ -25,6 +25,7 @@ pub struct Scan {
     pub dup_fields: Vec<String>,
     pub dup_variants: Vec<String>,
     pub dup_impls: Vec<String>,
+    pub dup_derives: Vec<String>,
     pub unresolved: Vec<String>,
     /// names of struct/enum/type items in the root module
     pub root_type_names: BTreeSet<String>,
@@ -45,6 +46,9 @@ impl Scan {
         }
         for d in &self.dup_impls {
             v.push(("dup-impl".to_string(), d.clone()));
+        }
+        for d in &self.dup_derives {
+            v.push(("dup-derive".to_string(), d.clone()));
         }
         for d in &self.unresolved {
             v.push(("unresolved".to_string(), d.clone()));
@@ -87,6 +91,23 @@ pub fn item_text(item: &syn::Item) -> String {
     item.to_token_stream().to_string()
 }
 
+/// `#[derive(A, B, A)]`: the same derive twice means two conflicting impls.
+fn check_derives(attrs: &[syn::Attribute], what: &str, scan: &mut Scan) {
+    let mut seen = BTreeSet::new();
+    for a in attrs {
+        if a.path().is_ident("derive") {
+            let _ = a.parse_nested_meta(|meta| {
+                let name = meta.path.to_token_stream().to_string().replace(' ', "");
+                let name = name.trim_start_matches("::").to_string();
+                if !seen.insert(name.clone()) {
+                    scan.dup_derives.push(format!("{what}: derive({name}) twice"));
+                }
+                Ok(())
+            });
+        }
+    }
+}
+
 fn collect_scope(items: &[syn::Item], path: &str, scan: &mut Scan) -> Scope {
     let mut scope = Scope::default();
     let mut impl_headers: BTreeSet<String> = BTreeSet::new();
@@ -125,6 +146,7 @@ fn collect_scope(items: &[syn::Item], path: &str, scan: &mut Scan) -> Scope {
                 }
                 match item {
                     syn::Item::Struct(s) => {
+                        check_derives(&s.attrs, &format!("{path}::{n}"), scan);
                         let mut seen = BTreeSet::new();
                         for f in s.fields.iter() {
                             if let Some(id) = &f.ident {
@@ -139,6 +161,7 @@ fn collect_scope(items: &[syn::Item], path: &str, scan: &mut Scan) -> Scope {
                         }
                     }
                     syn::Item::Enum(e) => {
+                        check_derives(&e.attrs, &format!("{path}::{n}"), scan);
                         let mut seen = BTreeSet::new();
                         for v in e.variants.iter() {
                             if !seen.insert(v.ident.to_string()) {
